@@ -508,5 +508,11 @@ def finding_matches(f, key):
     finding's key equals the violation's field (the violation may carry more fields)."""
     fk = f["key"]
     if isinstance(fk, dict) and isinstance(key, dict):
-        return all(key.get(k) == v for k, v in fk.items())
+        def m(k, v):
+            if isinstance(v, dict) and "contains" in v:
+                return v["contains"] in (key.get(k) or [])
+            if isinstance(v, dict) and "prefix" in v:
+                return str(key.get(k, "")).startswith(v["prefix"])
+            return key.get(k) == v
+        return all(m(k, v) for k, v in fk.items())
     return fk == key
